@@ -40,5 +40,5 @@ package graphsync
 //@   lenient
 //@   safety off
 //@   requires wfMsg(incoming) && (forall k cid.Cid :: k in incoming.blocks ==> isSumOf(k, blkData(incoming.blocks[k])))
-//@   modifies alloc
+//@   modifies alloc, nMsgAccepted
 //@   callsite RequestManager.ProcessResponses: assert blkListOK($blks) && $p == sender
